@@ -1022,4 +1022,187 @@ theorem C03_converges_all_rounds {ops sched : List Op} (hall : AllowedRev (sched
   intro r a sr sa V hne hr ha hent hV
   exact C03_converges_rounds hall hq hr ha hne hent hV (hsched r a sr sa V hne hr ha hent hV)
 
+/-! ### non-vacuity: three nodes, two joins, then writes, a delete and a compaction, then datagram rounds
+
+`c03rHist` (latest first): `n0` writes `k` and `j`, `n1` writes `x`; `n1` and then `n2` join `n0` (full
+stream exchange: `n0` knows both, `n2` knows both, `n1` knows only `n0`); then `n2` writes `y`, `n0`
+deletes `k` and compacts (threshold 1) - its own state is the marker at version 5 and `j` re-versioned
+4, while `n1` and `n2` still hold `n0` at version 2 with `k`.  `c03rSched`: three datagram rounds and
+nothing else - `n1 → n0` (full digest, ample limit), `n2 → n0` (digest cut down to the one entry about
+`n0`, reply cut at exactly its three items), `n0 → n2` (digest = the one entry about `n2`, no digest
+entries in the reply leg). -/
+def c03rHist : List Op :=
+  [Op.compact "n0" 1, Op.delete "n0" "k", Op.upsert "n2" "y" "2",
+   Op.join "n2" "n0" true 2, Op.join "n1" "n0" true 1,
+   Op.upsert "n1" "x" "1", Op.upsert "n0" "j" "w", Op.upsert "n0" "k" "v",
+   Op.node "n2" "a2", Op.node "n1" "a1", Op.node "n0" "a0"]
+
+def c03rR1 : List Op := pullRound 0 "n1" "a0" [0, 1, 2] 3 10 [0, 1, 2] 3 7 8
+def c03rR2 : List Op := pullRound 3 "n2" "a0" [0] 1 3 [2, 0] 1 9 10
+def c03rR3 : List Op := pullRound 6 "n0" "a2" [2] 1 2 [] 0 11 12
+
+/-- `n0` as `n1` and `n2` saw it at their join (before the delete and the compaction) -/
+def c03rOld0 : NodeSt :=
+  { id := "n0", addr := "a0", version := 2, entries :=
+      [("j", { key := "j", value := "w", version := 2 }), ("k", { key := "k", value := "v", version := 1 })] }
+def c03rS0 : CState :=
+  { localId := "n0", nodes := [("n0", c03N0), ("n2", { id := "n2", addr := "a2" }), ("n1", c03N1)] }
+def c03rS1 : CState := { localId := "n1", nodes := [("n0", c03rOld0), ("n1", c03N1)] }
+def c03rS1' : CState := { localId := "n1", nodes := [("n0", c03N0), ("n1", c03N1)] }
+def c03rS2 : CState := { localId := "n2", nodes := [("n2", c03N2), ("n1", c03N1), ("n0", c03rOld0)] }
+
+set_option maxRecDepth 8000 in
+theorem c03rHist_net : (runRev c03rHist).net =
+    { nodes := [("n0", c03rS0), ("n2", c03rS2), ("n1", c03rS1)], pool := [] } := by
+  simp [c03rHist, c03rS0, c03rS1, c03rS2, c03rOld0, c03N0, c03N1, c03N2, runRev, GNet.step, Net.step,
+    Net.setNode, Net.nodeByAddr, localOp, init, own,
+    upsertLocal, deleteLocal, compactLocal, writeOwn, setOwn, sortByVersion, List.mergeSort,
+    List.MergeSort.Internal.splitInTwo, compactKeeps, reversion, AMap.find, AMap.insert, AMap.erase, AMap.vals,
+    compactKey, applyDelta, applyDeltaEntry, applyEntries, applyEntry, applyDigest, applyDigestEntry,
+    localDelta, deltaEntry, delta, digest, sortDigest, sortDelta]
+  decide
+
+
+def c03rP1 : Packet := .digest "n1" "a1" "a0" true
+  [⟨"n0", "a0", 2, false⟩, ⟨"n1", "a1", 1, false⟩]
+def c03rP2 : Packet := .delta "n0" "a0" "a1"
+  [{ id := "n0", addr := "a0", entries := [{ key := "j", value := "w", version := 4 },
+      { key := compactKey, value := "3", version := 5, internal := true }] }]
+def c03rP3 : Packet := .digest "n0" "a0" "a1" false
+  [⟨"n0", "a0", 5, false⟩, ⟨"n1", "a1", 1, false⟩, ⟨"n2", "a2", 0, false⟩]
+
+set_option maxRecDepth 8000 in
+theorem c03rNet1 : (runRev (c03rR1 ++ c03rHist)).net =
+    { nodes := [("n1", c03rS1'), ("n0", c03rS0), ("n2", c03rS2)], pool := [c03rP1, c03rP2, c03rP3] } := by
+  simp only [c03rR1, pullRound, List.cons_append, List.nil_append, runRev_net_cons, c03rHist_net]
+  simp [c03rP1, c03rP2, c03rP3, c03rS0, c03rS1, c03rS1', c03rS2, c03rOld0, c03N0, c03N1, c03N2, Net.step,
+    Net.setNode, Net.nodeByAddr, own, handleDigest, cutDelta, selectIdx,
+    sortByVersion, List.mergeSort,
+    List.MergeSort.Internal.splitInTwo, AMap.find, AMap.insert, AMap.erase, AMap.vals,
+    compactKey, applyDelta, applyDeltaEntry, applyEntries, applyEntry, applyDigest, applyDigestEntry,
+    deltaEntry, delta, digest, sortDigest, parseUint64, AMap.filterV, leftKey]
+  all_goals decide
+def c03rS2' : CState := { localId := "n2", nodes := [("n0", c03N0), ("n2", c03N2), ("n1", c03N1)] }
+def c03rP4 : Packet := .digest "n2" "a2" "a0" true [⟨"n0", "a0", 2, false⟩]
+def c03rP5 : Packet := .delta "n0" "a0" "a2"
+  [{ id := "n0", addr := "a0", entries := [{ key := "j", value := "w", version := 4 },
+      { key := compactKey, value := "3", version := 5, internal := true }] }]
+def c03rP6 : Packet := .digest "n0" "a0" "a2" false [⟨"n2", "a2", 0, false⟩]
+
+set_option maxRecDepth 8000 in
+theorem c03rNet2 : (runRev (c03rR2 ++ (c03rR1 ++ c03rHist))).net =
+    { nodes := [("n2", c03rS2'), ("n0", c03rS0), ("n1", c03rS1')],
+      pool := [c03rP1, c03rP2, c03rP3, c03rP4, c03rP5, c03rP6] } := by
+  simp only [c03rR2, pullRound, List.cons_append, List.nil_append, runRev_net_cons, c03rNet1]
+  simp [c03rP1, c03rP2, c03rP3, c03rP4, c03rP5, c03rP6, c03rS0, c03rS1', c03rS2, c03rS2', c03rOld0, c03N0, c03N1,
+    c03N2, Net.step, Net.setNode, Net.nodeByAddr, own, handleDigest, cutDelta, selectIdx,
+    sortByVersion, List.mergeSort,
+    List.MergeSort.Internal.splitInTwo, AMap.find, AMap.insert, AMap.erase, AMap.vals,
+    compactKey, applyDelta, applyDeltaEntry, applyEntries, applyEntry, applyDigest, applyDigestEntry,
+    deltaEntry, delta, digest, sortDigest, parseUint64, AMap.filterV, leftKey]
+  all_goals decide
+
+def c03rSched : List Op := c03rR3 ++ (c03rR2 ++ c03rR1)
+
+theorem c03rSched_quiet : ∀ op ∈ c03rSched, Quiet op := by decide
+
+set_option maxRecDepth 8000 in
+theorem c03rAllowed : AllowedRev (c03rSched ++ c03rHist) := by
+  simp [c03rSched, c03rR1, c03rR2, c03rR3, pullRound, c03rHist, AllowedRev, StepAllowed, leftKey, compactKey, runRev,
+    GNet.step, Net.step, Net.setNode,
+    Net.nodeByAddr, localOp, init, own, upsertLocal, deleteLocal, writeOwn, setOwn, AMap.find, AMap.insert, AMap.erase,
+    AMap.vals, sortByVersion, List.mergeSort, List.MergeSort.Internal.splitInTwo,
+    applyDelta, applyDeltaEntry, applyEntries, applyEntry, applyDigest, applyDigestEntry,
+    localDelta, deltaEntry, delta, digest, sortDigest, sortDelta]
+
+/-- the round `n2 → n0` (second in the schedule; partial digest: only the entry about `n0`; reply cut
+at exactly its three items) fits in the state it starts from -/
+theorem c03rFits2 : RoundFits (runRev (c03rR1 ++ c03rHist)) "n2" "n0" [0] 1 3 := by
+  intro sr sa hr ha
+  rw [c03rNet1] at hr ha
+  simp [AMap.find] at hr ha
+  subst hr; subst ha
+  have hD : roundDigest c03rS2 [0] 1 = [⟨"n0", "a0", 2, false⟩] := by
+    simp [roundDigest, selectIdx, sortDigest, digest, c03rS2, c03rOld0, c03N1, c03N2, AMap.vals, List.mergeSort,
+      List.MergeSort.Internal.splitInTwo]
+  have hR : roundReply c03rS0 [⟨"n0", "a0", 2, false⟩] =
+      [{ id := "n0", addr := "a0", entries := [{ key := "j", value := "w", version := 4 },
+        { key := compactKey, value := "3", version := 5, internal := true }] }] := by
+    simp [roundReply, delta, deltaEntry, applyDigest, applyDigestEntry, c03rS0, c03N0, c03N1, AMap.find, AMap.vals,
+      sortByVersion, List.mergeSort, List.MergeSort.Internal.splitInTwo, compactKey]
+  rw [hD, hR]
+  exact ⟨⟨_, List.mem_cons_self .., rfl⟩, fun x hx _ => by simpa [cutDelta] using hx⟩
+
+/-- the round `n0 → n2` (third; digest cut down to the single entry about `n2`) fits -/
+theorem c03rFits3 : RoundFits (runRev (c03rR2 ++ (c03rR1 ++ c03rHist))) "n0" "n2" [2] 1 2 := by
+  intro sr sa hr ha
+  rw [c03rNet2] at hr ha
+  simp [AMap.find] at hr ha
+  subst hr; subst ha
+  have hD : roundDigest c03rS0 [2] 1 = [⟨"n2", "a2", 0, false⟩] := by
+    simp [roundDigest, selectIdx, sortDigest, digest, c03rS0, c03N0, c03N1, AMap.vals, List.mergeSort,
+      List.MergeSort.Internal.splitInTwo]
+  have hR : roundReply c03rS2' [⟨"n2", "a2", 0, false⟩] =
+      [{ id := "n2", addr := "a2", entries := [{ key := "y", value := "2", version := 1 }] }] := by
+    simp [roundReply, delta, deltaEntry, applyDigest, applyDigestEntry, c03rS2', c03N2, AMap.find, AMap.vals,
+      sortByVersion]
+  rw [hD, hR]
+  exact ⟨⟨_, List.mem_cons_self .., rfl⟩, fun x hx _ => by simpa [cutDelta] using hx⟩
+
+theorem c03rRound2 : HasFittingRound c03rHist c03rSched "n2" "n0" "a0" :=
+  ⟨c03rR1, c03rR3, [0], 1, 3, [2, 0], 1, 9, 10, by rw [c03rNet1]; rfl, c03rFits2⟩
+
+theorem c03rRound3 : HasFittingRound c03rHist c03rSched "n0" "n2" "a2" :=
+  ⟨c03rR2 ++ c03rR1, [], [2], 1, 2, [], 0, 11, 12, by
+    rw [List.append_assoc, c03rNet2]; rfl, by rw [List.append_assoc]; exact c03rFits3⟩
+
+/-- the concrete conclusion, obtained from `C03_converges_rounds` twice, in the one final state: `n2`,
+which saw `n0` at version 2 with the key `k` when it joined, sees it after its datagram round at
+version 5, without the deleted and compacted key `k`, with `j` as re-versioned by the compaction;
+and `n0`, which knew `n2` at version 0, has `n2`'s entry `y` -/
+example : ∃ s2 s0 V0 V2, (runRev (c03rSched ++ c03rHist)).net.nodes.find "n2" = some s2 ∧
+    (runRev (c03rSched ++ c03rHist)).net.nodes.find "n0" = some s0 ∧
+    s2.nodes.find "n0" = some V0 ∧ V0.version = 5 ∧ V0.entries.find "k" = none ∧
+    V0.entries.find "j" = some { key := "j", value := "w", version := 4 } ∧
+    s0.nodes.find "n2" = some V2 ∧ V2.version = 1 ∧
+    V2.entries.find "y" = some { key := "y", value := "2", version := 1 } := by
+  have h2 : (runRev c03rHist).net.nodes.find "n2" = some c03rS2 := by rw [c03rHist_net]; simp [AMap.find]
+  have h0 : (runRev c03rHist).net.nodes.find "n0" = some c03rS0 := by rw [c03rHist_net]; simp [AMap.find]
+  have ho0 : own c03rS0 = c03N0 := by simp [own, c03rS0]
+  have ho2 : own c03rS2 = c03N2 := by simp [own, c03rS2]
+  obtain ⟨s2, _, V0, a1, _, _, a2, a3, a4⟩ :=
+    C03_converges_rounds c03rAllowed c03rSched_quiet h2 h0 (by decide) (by rw [ho0]; simp [c03N0])
+      (V := c03rOld0) (by simp [c03rS2, AMap.find]) (by rw [ho0]; exact c03rRound2)
+  obtain ⟨s0, _, V2, b1, _, _, b2, b3, b4⟩ :=
+    C03_converges_rounds c03rAllowed c03rSched_quiet h0 h2 (by decide) (by rw [ho2]; simp [c03N2])
+      (V := { id := "n2", addr := "a2" }) (by simp [c03rS0, AMap.find]) (by rw [ho2]; exact c03rRound3)
+  rw [ho0] at a3 a4
+  rw [ho2] at b3 b4
+  refine ⟨s2, s0, V0, V2, a1, b1, a2, ?_, ?_, ?_, b2, ?_, ?_⟩
+  · rw [a3]; rfl
+  · rw [a4]; simp [c03N0, AMap.find, compactKey]
+  · rw [a4]; simp [c03N0, AMap.find, compactKey]
+  · rw [b3]; rfl
+  · rw [b4]; simp [c03N2]
+
+/-- non-vacuity of `C03_pull_round_discovers`: after `c03rHist` node `n1` does not know `n2` (it joined
+`n0` before `n2` did); one round `n1 → n2` plus the delivery of `n2`'s digest reply, and it does -/
+example : ∃ sr', (runRev (.deliver 2 0 [] 0 13 ::
+      (pullRound 0 "n1" "a2" [0, 1] 2 10 [0, 1, 2] 3 7 8 ++ c03rHist))).net.nodes.find "n1" = some sr' ∧
+    sr'.nodes.find "n2" = some { id := "n2", addr := "a2" } := by
+  have h1 : (runRev c03rHist).net.nodes.find "n1" = some c03rS1 := by rw [c03rHist_net]; simp [AMap.find]
+  have h2 : (runRev c03rHist).net.nodes.find "n2" = some c03rS2 := by rw [c03rHist_net]; simp [AMap.find]
+  have ho2 : own c03rS2 = c03N2 := by simp [own, c03rS2]
+  have hlen : (runRev c03rHist).net.pool.length = 0 := by rw [c03rHist_net]; rfl
+  obtain ⟨sr', _, e1, _, _, e2, _, _⟩ := C03_pull_round_discovers (allowedRev_append c03rSched _ c03rAllowed)
+    h1 h2 (by decide) (by simp [c03rS1, AMap.find]) (by rw [ho2]; rfl)
+    [0, 1] 2 10 [0, 1, 2] 3 7 8 0 [] 0 13
+    (by
+      refine ⟨⟨"n2", "a2", 1, false⟩, ?_, rfl⟩
+      simp [roundDigest, selectIdx, sortDigest, digest, applyDigest, applyDigestEntry, c03rS1, c03rS2, c03rOld0,
+        c03N1, c03N2, AMap.vals, AMap.find, List.mergeSort, List.MergeSort.Internal.splitInTwo])
+  rw [ho2, hlen] at e1
+  rw [ho2] at e2
+  exact ⟨sr', e1, e2⟩
+
 end Piko
